@@ -271,3 +271,15 @@ def crafted() -> list[dict]:
                         "flexibleVersions": "3+", "fields": [F("BrokerId", "int32", entityType="brokerId"),
                                                             F("Epoch", "int64", versions="2+", default="-1")]})
     return out
+
+
+def crafted_header_flex() -> list[dict]:
+    """the header rule where its special cases meet flexibility: ControlledShutdown (key 7) and
+    ApiVersions (key 18) definitions that are flexible from version 0 (a separate generation set:
+    API keys are unique within one set)"""
+    out = []
+    for key, stem in ((7, "Zc5ShutdownFlex"), (18, "Zc6VersionsFlex")):
+        for kind in ("request", "response"):
+            out.append({"type": kind, "name": stem + kind.capitalize(), "apiKey": key, "validVersions": "0-2",
+                        "flexibleVersions": "0+", "fields": [{"name": "BrokerId", "type": "int32", "versions": "0+"}]})
+    return out
